@@ -45,6 +45,17 @@ def main(argv=None) -> int:
         ctx = core.Context(prop, args.tier, seed, sources)
         ctx.no_selftest = args.no_selftest
         mod.run(ctx)
+        if args.tier == "thorough" and not args.no_selftest and not os.environ.get("A5_NO_SELFTEST") and not args.replay:
+            # self-validation battery on scratch copies of the current tree; never changes the exit code
+            try:
+                from sa import selftest
+                b = selftest.battery(prop)
+                ctx.extra_coverage["selftest"] = b
+                print(f"selftest {prop}: breaking variants reported {b['breaking_reported']}/{b['breaking_variants']} "
+                      f"(undecided {b['breaking_undecided']}, missed {b['breaking_missed']}), behaviour-preserving variants silent "
+                      f"{b['preserving_silent']}/{b['preserving_variants']} (false alarms {b['false_alarms']}), skipped {b['skipped']}", file=sys.stderr)
+            except Exception as e:   # the battery must never turn a verdict into a crash
+                ctx.extra_coverage["selftest"] = {"error": repr(e)}
         if args.replay:
             with open(args.replay) as fh:
                 want = json.load(fh)["key"]
